@@ -10,19 +10,19 @@ CHECKS = {
  "C01": ("reng", "exploration", "runtime monitoring: reference-model oracle over generated histories on the real replica engine",
          "Held on the generated histories: every read (read-back after each write, random reads, full-volume reads at quiescent points, after every chain mutation and reopen/reload) equals a sector-stamped reference model; controller range check exercised on the controller engine. Exploration, not proof: reach comes from the history generator's bias (alignment classes, ownership-straddling writes, chain mutations, reopen with and without preload, reclamation on/off).",
          "Sequential per replica; ext4 4 KiB; stamps make every sector identify the write it holds.", "DESIGN.md 4/C01"),
- "C06": ("reng", "exploration", "runtime monitoring: revert-on-copy image comparison of every retained user snapshot at quiescent points; Controller.Revert through REST on real processes followed by a full read",
+ "C06": ("reng", "exploration", "runtime monitoring: revert-on-copy image comparison of every retained user snapshot at quiescent points; Controller.Revert through REST on real processes followed by a full read; Controller.Revert on the controller engine with one replica refusing it, full reads at every reader position against the snapshot's model image",
          "Held on the generated histories: at every quiescent point the image of every retained user-created snapshot, obtained by reverting an extent-exact copy of the directory with the real code, equals the image recorded at creation; in-place reverts are compared with the image as well; on real replica processes every user snapshot taken through the controller had the model's image on every replica, kept it through deletions, a rebuild and cleaner merges, and a volume revert through the controller read back exactly that image.",
          "Reclamation on in 80% of cases; automatic snapshots are not verdict-bearing.", "DESIGN.md 4/C06"),
  "C10": ("reng", "exploration", "runtime monitoring: counter model compared after every step; concurrent writers with bounds on concurrent samples; counter agreement of all RW-listed replicas at settled points of controller histories",
          "Held on the generated histories: cached and persisted revision counter equal a model (+1 per applied write in RW, +0 in WO, explicit sets only in RW) after every step, across reopen, and under 2-16 concurrent writers (final == initial + N*M, concurrent samples between completed and issued).",
          "Crash points of the counter update are covered by C08; promotion equalisation by the controller engine.", "DESIGN.md 4/C10"),
- "C11": ("reng", "exploration", "runtime monitoring: cleaner-filter output checked against the property's predicate + before/after image comparison around deletions; on real processes a watcher over every replica's REST state checks each background removal against the predicate",
+ "C11": ("reng", "exploration", "runtime monitoring: cleaner-filter output checked against the property's predicate + before/after image comparison around deletions; on real processes a watcher over every replica's REST state checks each background removal against the predicate, one replica's first merge is cut short by SIGKILL to its sfold child; a worker built with jiva's debug tag runs the cleaner's deletion with a slow hole puncher (PUNCH_HOLE_TIMEOUT failpoint)",
          "Held on the generated histories: every name returned by the real candidate filter satisfies the property's predicate on the model chain; deletions through the cleaner route and the user route leave the live image and all retained user snapshots unchanged; in the real-process scenario (user deletions through the controller, a rebuild, the replicas' own cleaners merging under writes) every observed background removal satisfied the predicate and live data and retained user snapshots stayed equal to the model on every replica.",
          "The real cleaner loop (60 s ticker) runs in two replica-engine workers with a failing fold and, untouched, inside the real replica processes of the cluster scenario; its retention count is lowered only in the replica-engine workers.", "DESIGN.md 4/C11"),
- "C12": ("reng", "exploration", "runtime monitoring: chain well-formedness (files, attributes, parent/children links) + model equality after every valid and hostile management request, and across close/open; names of deleted snapshots reused",
+ "C12": ("reng", "exploration", "runtime monitoring: chain well-formedness (files, attributes, parent/children links) + model equality after every valid and hostile management request, and across close/open; names of deleted snapshots reused; on real processes (quick: short form) a replica is rebuilt from peers holding snapshots marked as removed",
          "Held on the generated request sequences: after every request (valid, refused or no-op) the chain equals the model chain, is a simple path whose members all have data and metadata files, attributes and full read are unchanged by refused requests, and close+open reproduces chain, attributes, size, checkpoint and data.",
          "Replica-level API (what the REST handlers call); REST-level malformed input is C14's.", "DESIGN.md 4/C12"),
- "C16": ("reng", "exploration", "runtime monitoring: model comparison around resize requests (grow / shrink / garbage) incl. snapshot images, reopen and a copy of the directory taken when the call returns",
+ "C16": ("reng", "exploration", "runtime monitoring: model comparison around resize requests (grow / shrink / garbage) incl. snapshot images, reopen and a copy of the directory taken when the call returns; the replica's REST resize action in 5 states x 8 size arguments (status and state must agree)",
          "Held on the generated histories: growth keeps the old range and every snapshot image, the added range reads zero and accepts writes, the size survives reopen and is already on disk when the call returns; shrink, garbage, empty and zero sizes are refused and change nothing.",
          "Replica side on the real engine; the controller side of Resize is exercised by the controller engine.", "DESIGN.md 4/C16"),
  "C17": ("reng", "exploration", "runtime monitoring: state-walk with every operation probed in every state (incl. an open whose last step fails), side effects detected by directory hash and counter",
@@ -46,19 +46,19 @@ CHECKS = {
  "C13": ("ctlsim", "exploration", "runtime monitoring: per-replica totally ordered applied logs compared across replicas; checkpoint invariant at settled points",
          "Held on the generated histories: under 2-4 concurrent writers with per-call delays every snapshot cut the write stream at the same point on all replicas; snapshots were refused unless all RF were RW; a recorded checkpoint always implied all RF RW, presence in every chain, persistence on every replica and (when newly recorded) agreement on the latest snapshot; it was withdrawn when a replica left.",
          "Byte-identity of snapshot images on real replica directories is exercised by the cluster engine.", "DESIGN.md 4/C13"),
- "C18": ("ctlsim", "exploration", "runtime monitoring: structural invariants of the controller's three membership structures at settled points (hooked state, compared with what GET /v1/replicas reports) + call logs; scripted failures of single admission steps",
+ "C18": ("ctlsim", "exploration", "runtime monitoring: structural invariants of the controller's three membership structures at settled points (hooked state, compared with what GET /v1/replicas reports) + call logs; scripted failures of single admission steps; read-only management requests (stats, volumes, replicas) polled while a failed replica is still listed; progress watchdog that reports a controller that no longer returns (with goroutine stacks)",
          "Held on the generated membership walks: replica list, replicator backend map, reader and writer lists and RWReplicaCount agreed at every settled point; no duplicates, never more than RF replicas or more than one WO; writes reached exactly the writers and detached replicas received no call after Close.",
          "State read through the verif-tagged VerifState hook under the controller lock.", "DESIGN.md 4/C18"),
- "C08": ("crashpt", "fault_enumeration", "runtime monitoring with ptrace-level fault injection: strace kills the victim before every state-changing syscall of the operation and fails every call once; a checker process reopens the directory with the real code",
+ "C08": ("crashpt", "fault_enumeration", "runtime monitoring with ptrace-level fault injection: strace kills the victim before every state-changing syscall of the operation, fails every call once, and makes every directory fsync the first of a persistent flush failure (durable state = what the last good flush left); a checker process reopens the directory with the real code",
          "For the sampled (pre-state, operation) pairs every syscall boundary of the operation was enumerated: after process death before each state-changing call the directory reopened (with and without preload) with the chain before or after, acknowledged data and retained user snapshots unchanged and the counter not decreased; with each call failing once (ENOSPC; thorough also EIO) no operation reported success over a state other than the complete after-state and none left an unopenable directory; the durability lint (directory fsync after every directory-entry change, O_SYNC metadata temp files) passed on every reference trace.",
          "Process death, not power loss; syscall boundaries of the operation's own thread; pre-states and operations are sampled, boundaries within them are exhaustive.", "DESIGN.md 4/C08"),
- "C14": ("restfuzz", "exploration", "runtime monitoring: journalled request fuzzing of both REST routers (single requests, concurrent bursts, two-request lock convoys released in a chosen order) with panic capture, liveness probe and TryLock after every request, child-process death detection",
+ "C14": ("restfuzz", "exploration", "runtime monitoring: journalled request fuzzing of both REST routers (single requests, concurrent bursts, two-request lock convoys released in a chosen order) with panic capture, liveness probe and TryLock after every request, child-process death detection; replica stubs that end in the middle of the volume-delete request",
          "Held on the request matrix (all routes x methods x body classes x id classes x controller/replica states, each pair on a fresh state, plus drifting sequences, bursts of concurrent well-formed requests and lock convoys): no request terminated the process, made a handler panic, failed to return, left the liveness request unanswered or left the controller/replica mutex held.",
          "Handlers run in-process through router.ServeHTTP; outbound calls hit loopback addresses that refuse at once or the scripted replicas' stubs.", "DESIGN.md 4/C14"),
  "C15": ("rpcsim", "exploration", "runtime monitoring: real rpc.Client/Wire/Server against a scripted peer with an independent codec; porcupine linearizability check of end-to-end histories (incl. requests the store refuses); failure reporting through backend/remote's ping monitor on the controller engine in net mode",
          "Held on the generated scenarios: frames round-tripped unchanged in both directions (also with concurrent writers), every call received exactly the reply generated for its own request under bounded reordering, duplicates and unknown sequence numbers; end-to-end histories through the real server were linearizable per block; after a stall, a late reply, close, reset or garbage every pending and later call failed, no request was sent twice and the failure was reported on the close channel.",
          "Read/write deadlines 1 s via the production knobs; sync/unmap/ping deadlines are constants (30/40 s) and are exercised once in the thorough tier.", "DESIGN.md 4/C15"),
- "C07": ("cluster", "exploration", "runtime monitoring on real processes: kill/stop -> restart -> rebuild cycles under foreground writes; round-robin read sweep + extent-exact directory comparison at promotion; sampled mode timeline",
+ "C07": ("cluster", "exploration", "runtime monitoring on real processes: kill/stop/death-inside-a-snapshot (strace-delivered SIGKILL) -> restart (also as a replacement on an empty directory) -> rebuild cycles under foreground writes with nine kinds of interruption (process kills at log markers, killed file transfers, death after the first metadata file), sync agents with narrow port ranges; round-robin read sweep + extent-exact directory comparison at promotion; sampled mode timeline",
          "Held (apart from the listed known finding F11) on the executed rebuild cycles: when the rebuilt replica was first listed RW every chunk read at every reader position equalled the model of acknowledged writes (the promoted replica serves through its live block map), its stored live image and every user snapshot were byte-identical to the source's and equal to the model, revision counters and chains were equal, never two replicas were WO at once, and a restarted replica only became RW after its process ran reload-and-verify.",
          "Schedules come from OS timing, seeded and log-marker-triggered kills; bounded waits expiring are inconclusive.", "DESIGN.md 4/C07"),
  "C19": ("cluster", "exploration", "runtime monitoring on real processes: clone replica started against a live source volume; replica-side status sampling every 3 ms (RW implies completed; completed implies not rebuilding, full chain, counter of S); image and counter comparison at completion",
